@@ -94,6 +94,7 @@ var siteTable = []struct {
 	{"types.VoteList.Less", "Candidate[7:]", -1, "tLessSlice"},
 	{"fee.CalcGas", "Div(fee, gasPrice)", -1, "fCalcGas"},
 	{"mempool.(*MemPool).validateTx", "rsp.(message.CheckFeeDelegationRsp)", -1, "pFdRsp"},
+	{"enterprise.deserializeConf", "data[0]", -1, "cDeser0"},
 }
 
 // siteByKind: when the text of the panicking line is not one of the expressions above (the line was reformatted or a
@@ -107,7 +108,7 @@ var siteByKind = map[string]string{
 	"name.ValidateNameTx/index": "nVal0", "name.ValidateNameTx/conversion": "nVal0",
 	"enterprise.checkArgs/index": "eCheckArgs0", "enterprise.checkArgs/conversion": "eCheckArgs0",
 	"enterprise.ValidateChangeCluster/index": "eCc0", "enterprise.checkRPCPermissions/index": "eRpcVals0",
-	"enterprise.(*Conf).Validate/index": "cRpcSplit",
+	"enterprise.(*Conf).Validate/index": "cRpcSplit", "enterprise.deserializeConf/index": "cDeser0",
 }
 
 // class id of a *known* finding (listed in known_findings.json with status "known"), per stage / site /
@@ -774,6 +775,9 @@ func (w *world) facts(tx *types.Tx, stNonce uint64, cons string) string {
 			if data == nil {
 				return "nil"
 			}
+			if len(data) == 0 {
+				return "empty" // a stored record without the on/off byte: no writer produces it (deserializeConf would read data[0])
+			}
 			var vals [][]byte
 			for _, v := range strings.Split(string(data), "\\")[1:] {
 				vals = append(vals, []byte(v))
@@ -1103,6 +1107,12 @@ func (w *world) templates() []tmpl {
 		{ent, "enableConf", []string{q("accountwhite"), "true"}, nil},
 		{ent, "enableConf", []string{q("rpcpermissions"), "true"}, nil},
 		{ent, "enableConf", []string{q("p2pblack"), "false"}, nil},
+		{ent, "enableConf", []string{q("p2pwhite"), "true"}, nil},
+		{ent, "setConf", []string{q("p2pblack"), q(`{"peerid":"","address":"","cidr":"10.9.0.0/16"}`)}, nil},
+		{ent, "appendConf", []string{q("p2pblack"), q(`{"peerid":"","address":"","cidr":"10.9.0.0/16"}`)}, nil},
+		{ent, "removeConf", []string{q("p2pblack"), q(`{"peerid":"","address":"","cidr":"10.9.0.0/16"}`)}, nil},
+		{ent, "appendConf", []string{q("p2pwhite"), q(`{"peerid":"","address":"","cidr":"10.8.0.0/16"}`)}, nil},
+		{ent, "removeConf", []string{q("p2pwhite"), q(`{"peerid":"","address":"","cidr":"10.8.0.0/16"}`)}, nil},
 		{ent, "changeCluster", []string{`{"command":"add","name":"n4","address":"/ip4/127.0.0.1/tcp/7846","peerid":"` + pid39 + `"}`}, nil},
 		{ent, "changeCluster", []string{`{"command":"remove","id":"dd44cf1a06727dc5"}`}, nil},
 		// member attributes the enterprise validator accepts and the raft cluster code then has to digest
@@ -1396,6 +1406,27 @@ func main() {
 			if string(c.rcpt) == ent && (thorough || i%4 == 0) {
 				cc := *c
 				run.Count("phase:5-short-admin")
+				w.runCase(&cc, false)
+			}
+		}
+	}
+
+	// phase 6: "empty again" states, each written by a committed block and read back from the new root before the next
+	// admission: a configuration that is switched off and has no value (never set, then disabled; a value appended and
+	// removed again), the admin's stake fully withdrawn
+	must(one(w, 0, ent, `{"Name":"enableConf","Args":["p2pblack",false]}`, nil, true))
+	must(one(w, 0, ent, `{"Name":"appendConf","Args":["p2pwhite","{\"peerid\":\"\",\"address\":\"\",\"cidr\":\"10.8.0.0/16\"}"]}`, nil, true))
+	must(one(w, 0, ent, `{"Name":"removeConf","Args":["p2pwhite","{\"peerid\":\"\",\"address\":\"\",\"cidr\":\"10.8.0.0/16\"}"]}`, nil, true))
+	w.blockNo += system.StakingDelay + 10
+	must(one(w, 0, sys, `{"Name":"v1unstake"}`, coins(20000), true))
+	{
+		g := &gen{w: w, rng: rng}
+		g.structured(false)
+		for i, c := range g.out {
+			p := string(c.payload)
+			if (string(c.rcpt) == ent && (strings.Contains(p, "p2p") || thorough || i%6 == 0)) || (string(c.rcpt) == sys && (thorough || i%5 == 0)) {
+				cc := *c
+				run.Count("phase:6-empty-again")
 				w.runCase(&cc, false)
 			}
 		}
